@@ -70,6 +70,26 @@ fn one_run(case: &AdfCase, script: Vec<(usize, bool)>, twoval: bool, id: String)
     recs
 }
 
+/// the counting-guided search with the recursion-entry tracer (hook H3b) installed
+fn count_run(case: &AdfCase, heu: &'static str, id: String) -> Value {
+    let text = case.text();
+    let n = case.n();
+    let asts: Vec<Value> = case.asts.iter().map(|a| a.to_json_idx()).collect();
+    let res = guarded(30, move || {
+        let parser = AdfParser::default();
+        parser.parse()(&text).unwrap();
+        let mut adf = Adf::from_parser(&parser);
+        verif_trace::install_visits();
+        let out: Vec<Vec<Term>> = if heu == "a" { adf.stable_count_optimisation_heu_a().collect() } else { adf.stable_count_optimisation_heu_b().collect() };
+        (verif_trace::take_visits(), out)
+    });
+    match res {
+        Outcome::Ok((visits, out)) => json!({"kind": "count", "id": id, "n": n, "asts": asts, "heu": heu, "st": "ok",
+            "visits": visits.iter().map(|(i, w, d)| json!([interp_json(i), interp_json(w), d])).collect::<Vec<_>>(), "out": interps_json(&out)}),
+        o => json!({"kind": "count", "id": id, "n": n, "asts": asts, "heu": heu, "st": o.status(), "visits": [], "out": []}),
+    }
+}
+
 pub fn main(args: &[String]) {
     let mut tier = "quick".to_string();
     let mut prefix = String::new();
@@ -92,6 +112,18 @@ pub fn main(args: &[String]) {
             let k = if tier == "thorough" { 1500 } else { 200 };
             (0..k).map(|j| rand_adf(&mut rng, 3, format!("s3_{}", j))).collect()
         };
+        // counting-guided search, both heuristics
+        {
+            let path = format!("{}_count_n{}.ndjson", prefix, n);
+            let mut f = std::io::BufWriter::new(std::fs::File::create(&path).expect("cannot create out file"));
+            for (ci, case) in cases.iter().enumerate() {
+                for heu in ["a", "b"] {
+                    writeln!(f, "{}", count_run(case, heu, format!("{}#{}#{}", case.id, ci, heu))).unwrap();
+                    total += 1;
+                }
+            }
+            f.flush().unwrap();
+        }
         for twoval in [false, true] {
             let path = format!("{}_n{}_{}.ndjson", prefix, n, if twoval { "tv" } else { "st" });
             let mut f = std::io::BufWriter::new(std::fs::File::create(&path).expect("cannot create out file"));
